@@ -29,7 +29,7 @@ manifest = dict(
     setup_cmd="./setup.sh",
     hooks=dict(
         guard="--cfg rsdns_verif",
-        enable="harness/.cargo/config.toml sets rustflags = [\"--cfg\", \"rsdns_verif\"]; the harness crate depends on /repo by path with features net-std,net-tokio,net-async-std,net-smol",
+        enable="harness/.cargo/config.toml sets rustflags = [\"--cfg\", \"rsdns_verif\"]; the harness crate depends on /repo by path with features net-std,net-tokio,net-async-std,net-smol,socket2",
         baseline_off_cmd="cd /repo && CARGO_TARGET_DIR=/verif/.build/cargo-baseline CARGO_NET_OFFLINE=true cargo test --workspace --no-fail-fast --offline",
         source_commits=props.HOOK_COMMITS,
         add_only=True,
